@@ -364,5 +364,6 @@ fn main() {
             std::process::exit(2);
         }
     }
+    c18::write_bindcheck(&dir);
     ctx.out.finish(&dir);
 }
